@@ -587,9 +587,9 @@ var justifiedORD = map[string]ordJust{
 			return true, ""
 		},
 	},
-	"analysis.(PkgSelector).findPackage|pa.Imports": {why: "depth-first search for the package with a given import path: at most one package of the import graph has that path, so the result does not depend on the visiting order", side: searchSide},
+	"analysis.(PkgSelector).findPackage|pa.Imports": {why: "depth-first search for the package with a given import path: at most one package of the import graph has that path, so the result does not depend on the visiting order", side: searchSideUniquePkg},
 	"analysis/httpapi.selectFileByPos|pa.Imports":   {why: "search for the file containing a position: file position ranges are disjoint, at most one file matches", side: searchSide},
-	"analysis/httpapi.selectPackage|pa.Imports":     {why: "search for the package with a given path: unique in the import graph", side: searchSide},
+	"analysis/httpapi.selectPackage|pa.Imports":     {why: "search for the package with a given path: unique in the import graph", side: searchSideUniquePkg},
 	"generator/dart.Generate|buf.files": {
 		why: "the result is a set of output files keyed by file name; each element's content depends only on its own map entry, and both consumers write each element to its own path",
 		side: func(c *ordCtx, rs *ast.RangeStmt) (bool, string) {
@@ -639,6 +639,67 @@ func searchSide(c *ordCtx, rs *ast.RangeStmt) (bool, string) {
 		if !terminates(is.Body) {
 			return false, "search loop has a non-terminating conditional effect"
 		}
+	}
+	return true, ""
+}
+
+// searchSideUniquePkg: searchSide, and the walker accepts a package only by an equality of package identities
+// (import path, ID, or the object itself): at most one package of the import graph satisfies it.
+func searchSideUniquePkg(c *ordCtx, rs *ast.RangeStmt) (bool, string) {
+	if ok, why := searchSide(c, rs); !ok {
+		return false, why
+	}
+	// the walker: innermost function literal (or the function) containing the loop
+	var body *ast.BlockStmt = c.fd.Body
+	var params *ast.FieldList = c.fd.Type.Params
+	ast.Inspect(c.fd.Body, func(n ast.Node) bool {
+		if fl, ok := n.(*ast.FuncLit); ok && fl.Body.Pos() <= rs.Pos() && rs.End() <= fl.Body.End() {
+			body, params = fl.Body, fl.Type.Params
+		}
+		return true
+	})
+	isParam := func(e ast.Expr) bool {
+		id := identOf(e)
+		if id == nil {
+			return false
+		}
+		for _, f := range params.List {
+			for _, nm := range f.Names {
+				if c.info.Defs[nm] == objOf(c.info, id) {
+					return true
+				}
+			}
+		}
+		return false
+	}
+	found := false
+	for _, st := range body.List {
+		is, ok := st.(*ast.IfStmt)
+		if !ok || st.Pos() > rs.Pos() {
+			continue
+		}
+		// accepts the visited package itself?
+		accepts := false
+		for _, bs := range is.Body.List {
+			if ret, ok := bs.(*ast.ReturnStmt); ok && len(ret.Results) == 1 && isParam(ret.Results[0]) {
+				accepts = true
+			}
+		}
+		if !accepts {
+			continue
+		}
+		found = true
+		be, ok := ast.Unparen(is.Cond).(*ast.BinaryExpr)
+		if !ok || be.Op != token.EQL {
+			return false, "the walker accepts the visited package under `" + es(is.Cond) + "`, which is not an equality of package identities: several packages of the import graph can satisfy it (a path that extends another one, a shared name), and the first one met in map order wins"
+		}
+		kx, ky := pkgStringKind(c.info, be.X), pkgStringKind(c.info, be.Y)
+		if !((kx == "path" || kx == "obj") && (ky == "path" || ky == "obj")) {
+			return false, "the walker accepts the visited package under `" + es(is.Cond) + "`, which does not compare import paths or package objects: the match is not unique in the import graph"
+		}
+	}
+	if !found {
+		return false, "no test accepting the visited package was found before the import loop"
 	}
 	return true, ""
 }
